@@ -42,6 +42,7 @@ moderate (|value| <= 1e3 at every node); the oracle does not need them.
 import itertools
 import logging
 import math
+import warnings
 
 import numpy as np
 from hypothesis import strategies as st
@@ -290,7 +291,6 @@ def build_energy(u, node, scope):
     k = node[0]
     if k == "jaxlh":
         # 0.5 |a*b - d|^2 written in jax, with the matching coordinate transformation as NIFTy operator
-        import warnings
         ka, kb = node[1]
         t = scope[ka]
         assert scope[kb] == t
@@ -428,12 +428,18 @@ def tags(node, acc):
 # oracle
 # ------------------------------------------------------------------------------------------
 class _Quiet:
+    """no log output / numpy floating-point warnings / python warnings from the code under test (restored on exit)"""
+
     def __enter__(self):
         self._lvl = ift.logger.level
         ift.logger.setLevel(logging.CRITICAL)
         self._err = np.seterr(all="ignore")
+        self._warn = warnings.catch_warnings()
+        self._warn.__enter__()
+        warnings.simplefilter("ignore")
 
     def __exit__(self, *a):
+        self._warn.__exit__(*a)
         ift.logger.setLevel(self._lvl)
         np.seterr(**self._err)
 
